@@ -21,6 +21,21 @@
    correspondence = the model decoder `Pbf.decodeFile` run with the SAME mask on the same bytes
    (Props/C05.lean `pbf_block_mask_is_filter` …; seed C05-3).
 
+5. scale (`scale_pass`, seed C05-6): resource use must not grow with the number of blocks / buffers
+   that deliver nothing.  PBF files with 2 000 - 20 000 (thorough: 200 000) CONSECUTIVE one-object
+   blocks of a type the mask excludes (leading, in the middle, trailing up to the end of the file, the
+   whole file, two runs, unsorted type order, alternating) synthesized in the harness (`defcat`) from
+   blocks written by the real Writer; a parser that queues thousands of valid buffers without data and
+   buffers nested 1 000 - 10 000 deep (mock parser `z<n>`, `n<k>`); one PBF block decoded into > 1 000
+   nested buffers (complete and abandoned reads); long runs of unselected objects in XML / OPL / o5m.
+   The thread that calls Reader::read() runs on a painted 64-256 KiB stack with a guard page
+   (`stack=`), the library's threads get 64-128 KiB (C05_THREAD_STACK_KB) — shrinking the resource
+   makes the dimension cheap.  Monitors: delivered sequence = mask-filtered file order, end marker,
+   failing reads after it, no crash / kill of the child (reported with the scenario line), the stack
+   high-water mark of the reading thread does not depend on the run length.  Props/C05.lean
+   `read_skips_any_number_of_empty_buffers` … state what the MODEL says (no state per skipped
+   buffer); the machine stack is outside the model and is covered by this pass.
+
 Regression probes with stable keys (both defects were found by this check and are fixed in /repo,
 KNOWN_FINDINGS.txt `fixed:` f1844ef, 2856666; verified to fire again on a copy with the fix reverted):
 `o5m-entity-mask-wrong-objects` (o5m files WITHOUT a Reset between the type sections under every
@@ -1016,6 +1031,412 @@ def mixed_pass(ctx, rng, quick, hbin, scratch, report):
     return nvalid
 
 
+# ------------------------------------------------------------------------------------------
+# SCALE: resource use must not grow with the number of blocks / buffers that deliver nothing.
+#
+# Reader::read() skips buffers without data in a loop, unwinds nested buffers through
+# m_back_buffers, and the PBF decoder returns one empty buffer per block without selected
+# objects.  The property quantifies over files of ANY size, so "many thousand consecutive
+# blocks that deliver nothing" is a dimension of its own (seed C05-6: read() calling itself
+# once per empty buffer: same sequences, but the stack of the reading thread grows with the
+# run length until the process dies).  It is made cheap by SHRINKING THE RESOURCE instead of
+# growing the input: the thread that calls Reader::read() runs on an explicit, painted stack
+# of 64-256 KiB with a guard page (`stack=<KiB>`, harness/c05.cpp), every thread the library
+# creates gets a small default stack (C05_THREAD_STACK_KB), and the files have 2 000 - 20 000
+# (thorough: 200 000, also on the normal 8 MiB stack) consecutive blocks of an excluded type —
+# synthesized inside the harness (`defcat`) from one-object blocks written by the real Writer.
+# Monitors: the delivered sequence = the mask-filtered file order (single-threaded decode of the
+# parts, cross-checked with the single-threaded decode of the whole file), eof + failing reads
+# after it, NO crash / kill of the reading process (a crash names the scenario), and the
+# measured stack high-water mark of the reading thread does not grow with the run length.
+# ------------------------------------------------------------------------------------------
+SCALE_HWM_TOLERANCE = 4096       # bytes by which the consumer's stack high-water mark may differ between run lengths
+
+
+def fnv64(s, memo={}):
+    h = memo.get(s)
+    if h is None:
+        h = 1469598103934665603
+        for c in s.encode('utf-8', 'surrogateescape'):
+            h = ((h ^ c) * 1099511628211) & 0xFFFFFFFFFFFFFFFF
+        if len(memo) < 4096:
+            memo[s] = h
+    return h
+
+
+def run_class(n):
+    for lim, name in ((1, '0'), (2, '1'), (100, '2-99'), (2000, '100-1999'), (20000, '2k-19999'), (200000, '20k-199999')):
+        if n < lim:
+            return name
+    return '>=200k'
+
+
+def mask_name(mask):
+    return ''.join(c for c, bit in (('n', 1), ('w', 2), ('r', 4), ('c', 8)) if mask & bit) or 'none'
+
+
+def run_attributed(hbin, scratch, env, defs, scenarios, max_crashes=3):
+    """One harness process for the scenarios (like run_process), but a process that dies — a signal in a thread
+    of the library, the watchdog, the consumer's stack overflow reported by the harness' own signal handler —
+    is attributed to the scenario that was running, and the remaining scenarios run in a fresh process.
+    Never raises because of the child's fate."""
+    blocks = []
+    todo = list(scenarios)
+    crashes = 0
+    while todo:
+        text = '\n'.join(defs + todo) + '\n'
+        try:
+            p = subprocess.run([hbin, scratch], input=text, stdout=subprocess.PIPE, stderr=subprocess.PIPE, text=True, env=clean_env(env), timeout=1800)
+            rc, out, err = p.returncode, p.stdout, p.stderr
+        except subprocess.TimeoutExpired as e:
+            rc, out, err = -9, (e.stdout or b'').decode('utf-8', 'replace') if isinstance(e.stdout, bytes) else (e.stdout or ''), 'check-side timeout'
+        got = [b for b in parse_blocks(out) if b.end is not None]
+        for b in got:
+            b.env = dict(env)
+        blocks.extend(got)
+        if rc == 0 and len(got) >= len(todo):
+            break
+        crashes += 1
+        if got and got[-1].end != 'ok':
+            todo = todo[len(got):]             # the harness reported the crash / timeout of that scenario itself
+        else:
+            line = todo[len(got)] if len(got) < len(todo) else todo[-1]
+            b = Block(line[4:] if line.startswith('run ') else line)
+            b.env = dict(env)
+            b.end = 'crash rc=%d (process died in a thread other than the reading thread, or without a report) %s' % (rc, err[-200:].replace('\n', ' '))
+            blocks.append(b)
+            todo = todo[len(got) + 1:]
+        if crashes >= max_crashes:
+            break
+    return blocks
+
+
+def scale_parts(ctx, rng, hbin, scratch, quick):
+    """one-object PBF blocks (real Writer) + files for the other formats; -> (parts, files, defs) or None.
+    parts: name -> {'bytes' (data blobs only), 'ref'}; 'H' is the header blob."""
+    gen_ops = []
+    kinds = {}
+
+    def g(name, fmt, n, idbase, order, *opts):
+        gen_ops.append('gen %s %s %d %d %d %s%s' % (name, fmt, n, rng.below(1 << 30), idbase, order, ''.join(' ' + o for o in opts)))
+        kinds[name] = (fmt, order)
+
+    variants = [(), ('pbf_dense_nodes=false', 'pbf_compression=none'), ('pbf_compression=none',)]
+    for t, base in (('n', 1000), ('w', 5000), ('r', 9000)):
+        for i in range(3):
+            g('s%s%d' % (t, i), 'pbf', 1, base + 100 * i, t, *variants[i])
+    deep_n = 4000 if quick else 8000
+    g('sdeepn', 'pbf', deep_n, 100, 'n', 'pbf_dense_nodes=false', 'pbf_compression=none')   # ONE block: ~deep_n/3 nested levels with the 256-byte buffer
+    g('sdeepw', 'pbf', deep_n // 2, 100, 'nw')
+    long_n = 3000 if quick else 30000
+    g('sxml', 'xml', long_n, 100, 'nwr')
+    g('sopl', 'opl', long_n, 100, 'nwrc')
+    rc, out, se = ctx.run_lines([hbin, scratch], '\n'.join(gen_ops) + '\n', env=clean_env({}))
+    got = {}
+    for l in out:
+        w = l.split()
+        if len(w) == 3 and w[0] == 'gen':
+            got[w[1]] = bytes.fromhex(w[2]) if w[2] != '-' else b''
+    if rc != 0 or len(got) != len(gen_ops):
+        ctx.violation('gen-failed', 'the real Writer failed to produce the scale test files: rc=%d %s' % (rc, se[-300:]), {'kind': 'harness'}, found_input=False)
+        return None
+    files = {}
+    for name, b in got.items():
+        files[name] = {'fmt': kinds[name][0], 'kind': 'scale-' + kinds[name][1], 'bytes': b}
+    d, offs = o5m_gen(rng, long_n, 'nwr', resets=True)
+    files['so5m'] = {'fmt': 'o5m', 'kind': 'scale-nwr', 'bytes': d, 'noreset': False, 'ends': offs}
+    if not reference_decode(ctx, hbin, scratch, files, per_blob=False):
+        return None
+    parts = {}
+    for name in list(files):
+        f = files[name]
+        if f['fmt'] == 'pbf' and len(f['ref']) == 1:
+            bl = pbf_blobs(f['bytes'])
+            if len(bl) != 2:
+                ctx.violation('gen-failed', 'a one-object PBF file has %d blobs' % len(bl), {'kind': 'harness'}, found_input=False)
+                return None
+            parts.setdefault('H', {'bytes': f['bytes'][:bl[0][1]], 'ref': []})
+            parts[name] = {'bytes': f['bytes'][bl[0][1]:], 'ref': f['ref'], 'refhdr': f['refhdr']}
+            del files[name]
+    return parts, files
+
+
+def scale_plans(rng, quick):
+    """(shape, [(type letter, run length), ...], masks) — the type letter stands for one-object blocks of that type"""
+    sizes = [2000, 3000, 5000] if quick else [2000, 20000, 50000]
+    big = 20000 if quick else 200000
+    plans = []
+
+    def N():
+        return rng.choice(sizes)
+
+    plans.append(('lead', [('n', N()), ('w', 2), ('r', 1)], [2, 4, 6, 1]))
+    plans.append(('lead', [('n', 200), ('w', 2), ('r', 1)], [2, 4, 6, 1]))                 # the short twin for the growth monitor
+    plans.append(('lead', [('n', big), ('w', 2), ('r', 1)], [2, 6] if quick else [2, 4, 6]))
+    plans.append(('trail', [('w', 1), ('r', 2), ('n', N())], [2, 4, 6]))
+    plans.append(('mid', [('n', 2), ('w', N()), ('r', 2)], [1, 4, 5]))
+    plans.append(('mid', [('n', 2), ('w', 200), ('r', 2)], [1, 4, 5]))
+    plans.append(('all-empty', [(rng.choice('nwr'), N())], [0]))                              # mask filled in below: a type that is not in the file
+    plans.append(('two-runs', [('w', N()), ('n', 1), ('r', N()), ('n', 1)], [1, 3, 5]))
+    plans.append(('alternating', [('n', 1), ('w', 1)] * (N() // 4), [1, 2, 4]))
+    plans.append(('unsorted', [('r', N()), ('n', 3), ('w', N()), ('n', 1)], [1, 3, 5, 6]))
+    return plans
+
+
+def scale_pass(ctx, rng, quick, hbin, scratch, report):
+    """-> number of scenarios run"""
+    made = scale_parts(ctx, rng, hbin, scratch, quick)
+    if made is None:
+        return 0
+    parts, files = made
+    by_type = {t: [n for n in parts if n.startswith('s' + t)] for t in 'nwr'}
+    defs = ['def %s %s' % (n, hx(p['bytes'])) for n, p in parts.items()] + ['def %s %s' % (n, hx(f['bytes'])) for n, f in files.items()]
+    scen_info = {}      # scenario line -> info
+    big = {}            # name -> {'cat': defcat line, 'want': [...], 'shape', 'runs'}
+    for i, (shape, runs, masks) in enumerate(scale_plans(rng, quick)):
+        name = 'sc%d' % i
+        cat = ['H']
+        want = []
+        for t, cnt in runs:
+            # a run is made of the three variants of a one-object block of that type, in seeded proportions
+            names = by_type[t]
+            cuts = sorted(rng.below(cnt + 1) for _ in range(len(names) - 1))
+            for pn, c in zip(names, [b - a for a, b in zip([0] + cuts, cuts + [cnt])]):
+                if c:
+                    cat.append('%s*%d' % (pn, c))
+                    want += parts[pn]['ref'] * c
+        if shape == 'all-empty':
+            masks = [m for m in (1, 2, 4) if m != TYPE_BIT[runs[0][0]]]
+        size = sum(len(parts[c.split('*')[0]]['bytes']) * int((c.split('*') + ['1'])[1]) for c in cat)
+        big[name] = {'cat': 'defcat %s %s' % (name, ' '.join(cat)), 'want': want, 'shape': shape, 'runs': runs, 'masks': masks, 'size': size,
+                     'blocks': sum(c for _, c in runs)}
+        ctx.count('file:pbf:scale-%s' % shape)
+    defs += [b['cat'] for b in big.values()]
+    # the oracle "decode of the concatenation = concatenation of the decodes" is itself checked on the smaller files
+    chk = [n for n, b in big.items() if b['blocks'] <= 6000]
+    rc, out, se = ctx.run_lines([hbin, scratch], '\n'.join(defs + ['ref %s pbf' % n for n in chk]) + '\n', env=clean_env({'OSMIUM_USE_POOL_THREADS_FOR_PBF_PARSING': 'off'}))
+    refs = []
+    for l in out:
+        if l.startswith('ref H '):
+            refs.append([])
+        elif l.startswith('ref O ') and refs:
+            refs[-1].append(l[6:])
+    if rc != 0 or len(refs) != len(chk) or any(r != big[n]['want'] for n, r in zip(chk, refs)):
+        ctx.violation('scale-oracle', 'the single-threaded decode of a concatenation of PBF blocks is not the concatenation of the decodes (rc=%d, %d of %d files decoded) %s'
+                      % (rc, len(refs), len(chk), se[-200:]), {'kind': 'check-error'}, found_input=False)
+        return 0
+
+    def maskrun(b, mask):
+        """longest run of consecutive blocks that deliver nothing under the mask"""
+        best = cur = 0
+        for t, c in b['runs']:
+            if TYPE_BIT[t] & mask:
+                best, cur = max(best, cur), 0
+            else:
+                cur += c
+        return max(best, cur)
+
+    envs = []
+    for i in range(4 if quick else 8):
+        e = {'OSMIUM_POOL_THREADS': rng.choice(['1', '2', '3', '8'])}
+        for k in ('INPUT', 'OSMDATA', 'WORK'):
+            v = rng.choice(['1', '2', None, None])
+            if v:
+                e['OSMIUM_MAX_%s_QUEUE_SIZE' % k] = v
+        if i % 2:
+            e['OSMIUM_USE_POOL_THREADS_FOR_PBF_PARSING'] = rng.choice(['off', 'false', 'no', '0'])
+        ts = [64, 128, None, 96][i % 4]
+        if ts:
+            e['C05_THREAD_STACK_KB'] = str(ts)
+        envs.append(e)
+
+    def add(sc, env_i, **info):
+        scen_info[(env_i, sc)] = info
+        per_env[env_i].append(sc)
+
+    per_env = [[] for _ in envs]
+    k = 0
+    for name, b in big.items():
+        for mask in b['masks']:
+            # every (file, mask) under one environment (round robin), the short ones under two
+            # the short twins and the very long files twice; a very long file once on the normal stack (stack=0: the main
+            # thread of the harness, 8 MiB) and once on a small one
+            for rep in range(2 if b['blocks'] < 1000 or b['blocks'] >= 100000 else 1):
+                env_i = k % len(envs)
+                k += 1
+                stack = 0 if b['blocks'] >= 100000 and rep == 0 else rng.choice([64, 128, 128, 256])
+                full = len([d for d in b['want'] if TYPE_BIT[d[0]] & mask])
+                sc = scen(fmt='pbf', data=name, src='mem' if rng.chance(3, 4) else 'file',
+                          cuts='-' if rng.chance(1, 2) else ','.join(map(str, sorted({1 + rng.below(b['size'] - 1) for _ in range(6)}))),
+                          mask=mask | (8 if rng.chance(1, 4) else 0), meta=rng.choice([1, 1, 0]), bt=rng.choice(['any', 'single']), pool=rng.choice([0, 0, 1, 2, 3]),
+                          hdr=rng.choice([0, 1, 2]), k=-1, stop=rng.choice(['close', 'dtor']), pl=rng.choice([0, 0, 0, 1]), ps=1 + rng.below(1000000), trace=0,
+                          wd=300000, stack=stack, digest=1 if full > 30000 else 0)
+                add(sc, env_i, kind='pbf-blocks', file=name, shape=b['shape'], run=maskrun(b, mask & 7), mask=mask & 7, stack=stack, size=b['blocks'],
+                    family=('pbf', b['shape'], mask & 7))
+    # the same at the level of the Reader alone: a parser that queues valid buffers WITHOUT data (what the PBF decoder does
+    # for a block without selected objects), and buffers with very deep nesting — the mock parser of the harness
+    msizes = [2000, 5000, 20000] if quick else [2000, 20000, 200000]
+    for n in [200] + msizes:
+        for script, shape in (('hz%db2z%db1e' % (n, n), 'empty-buffers-then-data'), ('hez%d' % n, 'empty-buffers-then-eof'), ('hb1z%db3e' % n, 'empty-buffers-then-data')):
+            env_i = k % len(envs)
+            k += 1
+            stack = rng.choice([64, 128, 256])
+            sc = scen(fmt='mock', data='sxml', src='mem', cuts='-', mp=script, mask=15, meta=1, bt='any', pool=1, hdr=rng.choice([0, 1]), k=-1,
+                      stop=rng.choice(['close', 'dtor']), pl=0, ps=1, trace=0, wd=120000, stack=stack)
+            add(sc, env_i, kind='mock', shape=shape, run=n, mask=15, stack=stack, size=n, nodes=sum(int(x) for x in re.findall(r'b(\d+)', script)),
+                family=('mock', script.replace(str(n), 'N'), 15))
+    for depth in ([1000, 3000] if quick else [1000, 3000, 10000]):
+        for kreads, stop in ((-1, 'close'), (2, 'dtor'), (depth // 2, 'close')):
+            env_i = k % len(envs)
+            k += 1
+            stack = rng.choice([128, 256]) if kreads < 0 else 512
+            sc = scen(fmt='mock', data='sxml', src='mem', cuts='-', mp='hn%dz%db1e' % (depth, depth), mask=15, meta=1, bt='any', pool=1, hdr=1, k=kreads,
+                      stop=stop, pl=0, ps=1, trace=0, wd=120000, stack=stack)
+            add(sc, env_i, kind='mock', shape='nested-depth-%d%s' % (depth, '' if kreads < 0 else '-partial-read'), run=depth, mask=15, stack=stack,
+                nodes=depth + 2, partial=kreads >= 0, family=None)
+    # nested-buffer unwinding of REAL decoders: one PBF block of thousands of objects with the hooked 256-byte buffer
+    # (get_last_nested chain of depth > 1000), complete and abandoned reads; long runs of unselected OBJECTS in the
+    # other three formats (their parsers never queue a buffer without data: flush_final_buffer / maybe_new_buffer test
+    # committed() > 0, a nested buffer holds data) with small stacks for the parser thread
+    for name, f in files.items():
+        for mask in ((1, 2, 3) if name.startswith('sdeep') else (4, 8, 6) if f['fmt'] == 'opl' else (4, 2, 5)):
+            for kreads in ((-1, 3) if name.startswith('sdeep') else (-1,)):
+                env_i = k % len(envs)
+                k += 1
+                stack = rng.choice([128, 256]) if kreads < 0 else 512
+                sc = scen(fmt=f['fmt'], data=name, src=rng.choice(['mem', 'file']), cuts=cuts_for(rng, len(f['bytes']), rng.choice(['none', 'random'])), mask=mask,
+                          meta=rng.choice([1, 0]), bt=rng.choice(['any', 'single']), pool=rng.choice([0, 1, 2]), hdr=rng.choice([0, 1]), k=kreads,
+                          stop=rng.choice(['close', 'dtor']), pl=0, ps=1, trace=0, wd=120000, stack=stack)
+                first = next((i for i, d in enumerate(f['ref']) if TYPE_BIT[d[0]] & mask), len(f['ref']))
+                add(sc, env_i, kind='file', file=name, shape='deep-nesting' + ('-partial-read' if kreads >= 0 else '') if name.startswith('sdeep') else 'unselected-objects-first',
+                    run=first, mask=mask, stack=stack, partial=kreads >= 0, family=None)
+
+    nrun = 0
+    hwm_all = []
+    families = {}
+    allfiles = dict(files)
+    for env_i, env in enumerate(envs):
+        sc = per_env[env_i]
+        blocks = run_attributed(hbin, scratch, env, defs, sc)
+        ctx.count('env:scale:' + env_str(env))
+        if len(blocks) < len(sc) and all(b.end == 'ok' for b in blocks) and not ctx.violations:
+            ctx.violation('harness-incomplete', 'only %d of %d scale scenarios ran under [%s]' % (len(blocks), len(sc), env_str(env)), {'kind': 'check-error'}, found_input=False)
+        for b in blocks:
+            info = scen_info.get((env_i, b.line))
+            if info is None:
+                continue
+            nrun += 1
+            ctx.note_case('scale ' + env_str(env) + ' ' + b.line)
+            ctx.count('scenario:scale:%s' % info['kind'])
+            fmt = b.kv.get('fmt')
+            outcome = 'ok'
+            cfg = '%s [%s]' % (b.line, env_str(env))
+            need = []
+            if info['kind'] == 'pbf-blocks':
+                need = [c.split('*')[0] for c in big[info['file']]['cat'].split()[2:]] + [info['file']]
+            elif info['kind'] == 'file' and len(allfiles[info['file']]['bytes']) < 100000:
+                need = [info['file']]
+            rep = {'scale': info['shape'], 'longest_run_without_data': info['run'], 'consumer_stack_kib': info['stack'] or 'default',
+                   'files': [d for d in defs if d.split()[1] in need], 'replay': 'feed the lines of `files` and the scenario line to the c05 harness under `env`'}
+            if b.end != 'ok':
+                outcome = 'timeout' if b.end == 'timeout' else 'CRASH'
+                what = ('the reading process %s (%s) instead of delivering the selected objects: %s with a run of %d consecutive %s that deliver nothing, stack of the reading thread %s, in `%s`'
+                        % ('did not finish' if b.end == 'timeout' else 'was killed', b.end, {'pbf-blocks': 'PBF file', 'mock': 'parser', 'file': '%s file' % fmt}[info['kind']],
+                           info['run'], 'blocks' if info['kind'] == 'pbf-blocks' else 'buffers / nesting levels' if info['kind'] == 'mock' else 'objects',
+                           '%d KiB' % info['stack'] if info['stack'] else 'default (8 MiB)', cfg))
+                report('reader-%s:%s:%s:mask=%s' % ('stuck' if b.end == 'timeout' else 'crash', fmt, info['shape'], mask_name(info['mask'])), what, rep, b)
+            else:
+                hit = False
+                for mname, ok, d in b.mon:
+                    ctx.count('monitor:%s:%s' % (mname, 'ok' if ok else 'FAIL'))
+                    if not ok:
+                        hit = True
+                        report('monitor:%s:%s' % (mname, fmt), 'monitor `%s` failed (%s) in `%s`' % (mname, d, cfg), dict(rep, monitor=mname), b)
+                if info['kind'] == 'file':
+                    hit = check_block(ctx, b, allfiles, lambda kk, w, e, b=b: report(kk, w, dict(rep, **e), b)) or hit
+                else:
+                    meta = b.kv.get('meta', '1') == '1'
+                    if info['kind'] == 'pbf-blocks':
+                        want = [d for d in big[info['file']]['want'] if TYPE_BIT[d[0]] & info['mask']]
+                        if not meta:
+                            want = [strip_meta(d) for d in want]
+                    else:
+                        want = None
+                    bad = None
+                    n = 0
+                    for serial, frm, ds in b.bufs:
+                        if len(ds) == 1 and ds[0].startswith('#'):
+                            cnt, dg = ds[0][1:].split(':')
+                            cnt = int(cnt)
+                            exp = want[n:n + cnt]
+                            if len(exp) != cnt or (meta and fnv64('|'.join(exp)) != int(dg)):
+                                bad = bad or 'buffer %d (objects %d..%d) differs from the expected sequence' % (serial, n, n + cnt - 1)
+                            n += cnt
+                            continue
+                        for d in ds:
+                            if want is not None:
+                                g = d if meta else strip_meta(d)
+                                if n >= len(want) or g != want[n]:
+                                    bad = bad or 'object %d: got `%s` want `%s`' % (n, d[:120], (want[n] if n < len(want) else 'nothing more')[:120])
+                            elif not d.startswith('n %d ' % (n + 1)):
+                                bad = bad or 'object %d is `%s`, the parser sent node %d' % (n, d[:80], n + 1)
+                            n += 1
+                    total = len(want) if want is not None else info['nodes']
+                    if not info.get('partial'):
+                        if bad is None and n != total:
+                            bad = 'delivered %d objects, the file order filtered by the mask has %d' % (n, total)
+                        if bad is None and b.obs.get('eof') != '1':
+                            bad = 'the read did not end with the end-of-data marker (error=%s %s)' % (b.obs.get('error'), b.obs.get('first_error'))
+                        calls = [r for c, r in b.api if c == 'read']
+                        eof_i = [i for i, r in enumerate(calls) if r[:1] == ['eof']]
+                        if bad is None and (not eof_i or not calls[eof_i[0] + 1:] or any(r[:1] != ['throw'] for r in calls[eof_i[0] + 1:])):
+                            bad = 'read() after the end-of-data marker did not throw'
+                    elif bad is None and n > total:
+                        bad = 'delivered %d objects of %d' % (n, total)
+                    if bad:
+                        hit = True
+                        report('wrong-sequence:%s:%s:mask=%s' % (fmt, info['shape'], mask_name(info['mask'])),
+                               'Reader output differs from the mask-filtered file order: %s in `%s` (longest run of blocks / buffers without data: %d)' % (bad, cfg, info['run']),
+                               rep, b)
+                if hit:
+                    outcome = 'WRONG'
+                hwm = b.obs.get('stack_hwm')
+                if hwm is not None:
+                    hwm = int(hwm)
+                    if not info.get('partial'):
+                        hwm_all.append(hwm)
+                        if info['family']:
+                            families.setdefault(info['family'], []).append((info['size'], hwm, b, info['run']))
+                    ctx.count('scale:consumer-stack-hwm:%s:%s' % ('abandoned-read-of-nested-buffers' if info.get('partial') else 'complete-read',
+                                                                    '<16K' if hwm < 16384 else '<32K' if hwm < 32768 else '<64K' if hwm < 65536 else '<128K' if hwm < 131072 else '>=128K'))
+                    if info.get('partial'):
+                        d = ctx.extra.setdefault('scale_nested_destructor_hwm', {})
+                        d[info['shape']] = max(d.get(info['shape'], 0), hwm)
+            ctx.count('scale:%s:%s:run=%s:mask=%s:stack=%s:%s' % (fmt, info['shape'] if not info['shape'].startswith('nested-depth') else re.sub(r'\d+', 'D', info['shape']),
+                                                                  run_class(info['run']), mask_name(info['mask']), '%dK' % info['stack'] if info['stack'] else 'default', outcome))
+            ctx.count('scale:library-thread-stack:%s' % (env.get('C05_THREAD_STACK_KB', 'default') + ('K' if 'C05_THREAD_STACK_KB' in env else '')))
+        if len(ctx.violations) >= 8:
+            break
+    # the stack the reading thread needs does not depend on how many blocks / buffers deliver nothing
+    for fam, rows in sorted(families.items(), key=str):
+        rows.sort(key=lambda r: r[0])
+        lo, hi = rows[0], max(rows, key=lambda r: r[1])
+        if len({r[0] for r in rows}) > 1:
+            ctx.count('scale:hwm-compared-across-run-lengths')
+            if hi[1] - min(r[1] for r in rows) > SCALE_HWM_TOLERANCE and len(ctx.violations) < 8:
+                small = min(rows, key=lambda r: r[1])
+                report('stack-grows-with-run-length:%s:%s:mask=%s' % (fam[0], fam[1], mask_name(fam[2])),
+                       'the stack used by the thread that calls Reader::read() grows with the number of blocks / buffers of the input: high-water mark %d bytes '
+                       'with %d blocks (longest run without data %d: `%s`) but %d bytes with %d blocks (longest run without data %d: `%s`)'
+                       % (small[1], small[0], small[3], small[2].line, hi[1], hi[0], hi[3], hi[2].line), {}, hi[2])
+    if hwm_all:
+        ctx.extra['scale_consumer_stack_hwm_bytes'] = {'min': min(hwm_all), 'max': max(hwm_all), 'runs': len(hwm_all)}
+    ctx.extra['scale_scenarios'] = nrun
+    for sc in [s for e in per_env for s in e][:2]:
+        ctx.sample('scale :: ' + sc)
+    return nrun
+
+
 def ops_of(f):
     from props import c01_pbf as P
     r = f['specop']
@@ -1035,7 +1456,11 @@ def run(ctx):
                 '(specification encoder with per-group dense/plain choice: all six orders of n/w/r groups, dense + plain node groups in one block, plain '
                 'nodes behind way/relation groups, a type coming back, group splitting, random layouts with the other encoding choices of C02, zlib '
                 'twins, one unparsable object inside one group) x every n/w/r mask (+ changeset bit) x read_meta x pool parsing on/off, each compared '
-                'with the mask-filtered single-threaded read of all types and with the model decoder run with the same mask')
+                'with the mask-filtered single-threaded read of all types and with the model decoder run with the same mask; plus the scale '
+                'dimension: PBF files with runs of 200 / 2 000 - 20 000 (thorough 200 000) consecutive one-object blocks of an excluded type in '
+                'seven shapes x masks, a parser queueing that many valid buffers without data, buffers nested 1 000 - 10 000 deep, one PBF block '
+                'decoded into > 1 000 nested buffers, long runs of unselected objects in XML/OPL/o5m — read by a thread with a painted 64-256 KiB '
+                'stack (library threads 64-128 KiB): sequence = mask-filtered file order, no crash, stack high-water mark independent of the run length')
     ctx.assumptions += [
         'the OS scheduler is not enumerated: the theorems cover all interleavings of the MODEL; the runs validate that behaviours observed '
         'from the implementation (under seeded schedule perturbation) are behaviours of the model and satisfy the property',
@@ -1046,6 +1471,13 @@ def run(ctx):
     ctx.assumptions.append('mixed-type PrimitiveBlocks: Model/PbfMixed.lean encodeMixed is my reading of osmformat.proto (PrimitiveBlock.primitivegroup is '
                            'repeated, only a PrimitiveGroup is type-homogeneous); read_meta::no is compared modulo version/timestamp/changeset/uid/user and the '
                            'visible flag (PBF keeps it in Info/DenseInfo)')
+    ctx.assumptions.append('scale: the machine stack is NOT part of the Lean model (the consumer is a flat record with a program counter); "stack use does not '
+                           'grow with the number of skipped buffers" is checked only by the small-stack monitor (consumer thread on 64-256 KiB, default size of '
+                           'the library threads 64-128 KiB, runs up to 20 000 / 200 000 buffers without data). Measured on the unmodified code: the reading '
+                           'thread needs 10-13 KiB whatever the run length; destroying a Reader / Buffer that still holds a chain of nested buffers recurses '
+                           'once per level (~16 bytes each at -O1: depth = decoded block size / initial buffer size, <= a few thousand with the production '
+                           'constants 64 KiB / 32 MiB) — recorded in the evidence (scale_nested_destructor_hwm), not an alarm. Heap use is not monitored '
+                           '(the queue bounds limit the buffers in flight).')
     ctx.trusted.append('trace completion in tools/props/c05.py is NOT trusted: every event it proposes is checked by the proved step function')
 
     proof_ok = ctx.proof_stage(exes=['model_c05', 'model_pbf'])
@@ -1106,7 +1538,9 @@ def _run(ctx, rng, quick, hbin, scratch, proof_ok):
             break
     if len(ctx.violations) < 8:
         nvalid += mixed_pass(ctx, rng, quick, hbin, scratch, report)
-    ctx.extra['scenarios_run'] = len(all_blocks) + ctx.extra.get('mixed_block_scenarios', 0)
+    if len(ctx.violations) < 8:
+        scale_pass(ctx, rng, quick, hbin, scratch, report)
+    ctx.extra['scenarios_run'] = len(all_blocks) + ctx.extra.get('mixed_block_scenarios', 0) + ctx.extra.get('scale_scenarios', 0)
     ctx.extra['traces_validated'] = nvalid
     if ctx.exe_build_ok and nvalid == 0 and not ctx.violations:
         ctx.violation('no-trace-validated', 'no trace could be validated against the model', {'kind': 'check-error'}, found_input=False)
